@@ -1,11 +1,13 @@
-\* exhaustive, repaired design (both switches on): the property holds without exception
-\* measured: 462 distinct states, 203 103 transitions, depth 6, ~9 s on 4 workers
+\* exhaustive, repaired design (the three switches on): the property holds without exception
+\* measured: 462 distinct states, 422 487 transitions, depth 6, ~13 s on 4 workers
 CONSTANTS
   MaxLen = 3
   MaxReverts = 1
   Txs <- MCTxs
   FixTxIndexMissingBlock = TRUE
   FixZeroHashState = TRUE
+  FixLegacyZeroWriteLog = TRUE
+  LubZeroShortcut = FALSE
   WithPreConfirmed = TRUE
 INIT Init
 NEXT Next
